@@ -368,6 +368,20 @@ class CNP:
         return IdxArr(list(range(a, b)))
 
     @staticmethod
+    def asarray(f, dtype=None):
+        if dtype is None or f.dtype == dtype:
+            return f                 # no copy when the dtype already matches (NumPy semantics)
+        r = Filt(f.n, dtype)
+        r.vals = list(f.vals)
+        return r
+
+    @staticmethod
+    def array(f, dtype=None, copy=True):
+        r = Filt(f.n, dtype or f.dtype)
+        r.vals = list(f.vals)
+        return r
+
+    @staticmethod
     def exp(p):
         return ExpArr(p.c)
 
